@@ -20,6 +20,7 @@ import (
 	"github.com/echovault/sugardb/internal"
 	"github.com/echovault/sugardb/internal/constants"
 	"slices"
+	"strconv"
 	"strings"
 )
 
@@ -215,7 +216,7 @@ func handleSINTERCARD(params internal.HandlerFuncParams) ([]byte, error) {
 			return nil, errors.New(constants.WrongArgsResponse)
 		}
 
-		if l, ok := internal.AdaptType(params.Command[limitIdx]).(int); !ok {
+		if l, err := strconv.Atoi(params.Command[limitIdx]); err != nil {
 			return nil, errors.New("limit must be an integer")
 		} else {
 			limit = l
@@ -413,8 +414,8 @@ func handleSPOP(params internal.HandlerFuncParams) ([]byte, error) {
 	count := 1
 
 	if len(params.Command) == 3 {
-		c, ok := internal.AdaptType(params.Command[2]).(int)
-		if !ok {
+		c, err := strconv.Atoi(params.Command[2])
+		if err != nil {
 			return nil, errors.New("count must be an integer")
 		}
 		count = c
@@ -445,8 +446,8 @@ func handleSRANDMEMBER(params internal.HandlerFuncParams) ([]byte, error) {
 	count := 1
 
 	if len(params.Command) == 3 {
-		c, ok := internal.AdaptType(params.Command[2]).(int)
-		if !ok {
+		c, err := strconv.Atoi(params.Command[2])
+		if err != nil {
 			return nil, errors.New("count must be an integer")
 		}
 		count = c
